@@ -1,27 +1,59 @@
-// single-threaded lock models: track hold state so self-deadlock is an assertion failure
+// lock models: hold-state counters; every acquisition is a scheduler yield point unless the harness has marked the
+// lock "quiet" (partial-order reduction). A quiet lock in checked mode (1) verifies that it really is uncontended:
+// if one thread write-locks it and another thread touches it in the same phase, the check `por.quiet-lock-conflict` fails.
 use std::cell::{Cell, UnsafeCell};
 use std::ops::{Deref, DerefMut};
 #[derive(Debug)] pub struct Poison;
-pub struct RwLock<T> { v: UnsafeCell<T>, st: Cell<isize> }
+pub struct Quiet { mode: Cell<u8>, readers: Cell<u64>, writers: Cell<u64> }
+impl Quiet {
+    fn new() -> Quiet { Quiet { mode: Cell::new(0), readers: Cell::new(0), writers: Cell::new(0) } }
+    fn set(&self, m: u8) { self.mode.set(m); self.readers.set(0); self.writers.set(0); }
+    fn on_acquire(&self, write: bool) {
+        let m = self.mode.get();
+        if m == 0 { crate::vclock::yield_point(); return; }
+        if m == 1 {
+            let bit = 1u64 << (vsym::current_tid() as u64);
+            if write { self.writers.set(self.writers.get() | bit); } else { self.readers.set(self.readers.get() | bit); }
+            let w = self.writers.get(); let all = w | self.readers.get();
+            if w != 0 && (all & (all - 1)) != 0 { vsym::check("por.quiet-lock-conflict", false); }
+        }
+    }
+}
+pub struct RwLock<T> { v: UnsafeCell<T>, st: Cell<isize>, q: Quiet }
 unsafe impl<T> Sync for RwLock<T> {} unsafe impl<T> Send for RwLock<T> {}
 pub struct RwLockReadGuard<'a, T> { l: &'a RwLock<T> }
 pub struct RwLockWriteGuard<'a, T> { l: &'a RwLock<T> }
 impl<T> RwLock<T> {
-    pub fn new(t: T) -> Self { RwLock { v: UnsafeCell::new(t), st: Cell::new(0) } }
-    pub fn read(&self) -> Result<RwLockReadGuard<'_, T>, Poison> { crate::vclock::yield_point(); assert!(self.st.get() >= 0, "read while write-held: deadlock"); self.st.set(self.st.get() + 1); Ok(RwLockReadGuard { l: self }) }
-    pub fn write(&self) -> Result<RwLockWriteGuard<'_, T>, Poison> { crate::vclock::yield_point(); assert!(self.st.get() == 0, "write while held: deadlock"); self.st.set(-1); Ok(RwLockWriteGuard { l: self }) }
+    pub fn new(t: T) -> Self { RwLock { v: UnsafeCell::new(t), st: Cell::new(0), q: Quiet::new() } }
+    /// harness-only: 0 = yield point (default), 1 = no yield, contention checked, 2 = no yield, unchecked (state that no property observes)
+    pub fn set_quiet(&self, mode: u8) { self.q.set(mode); }
+    pub fn read(&self) -> Result<RwLockReadGuard<'_, T>, Poison> {
+        self.q.on_acquire(false);
+        while self.st.get() < 0 { vsym::block_on_lock(); }
+        self.st.set(self.st.get() + 1); Ok(RwLockReadGuard { l: self })
+    }
+    pub fn write(&self) -> Result<RwLockWriteGuard<'_, T>, Poison> {
+        self.q.on_acquire(true);
+        while self.st.get() != 0 { vsym::block_on_lock(); }
+        self.st.set(-1); Ok(RwLockWriteGuard { l: self })
+    }
 }
 impl<'a, T> Deref for RwLockReadGuard<'a, T> { type Target = T; fn deref(&self) -> &T { unsafe { &*self.l.v.get() } } }
 impl<'a, T> Deref for RwLockWriteGuard<'a, T> { type Target = T; fn deref(&self) -> &T { unsafe { &*self.l.v.get() } } }
 impl<'a, T> DerefMut for RwLockWriteGuard<'a, T> { fn deref_mut(&mut self) -> &mut T { unsafe { &mut *self.l.v.get() } } }
 impl<'a, T> Drop for RwLockReadGuard<'a, T> { fn drop(&mut self) { self.l.st.set(self.l.st.get() - 1); } }
 impl<'a, T> Drop for RwLockWriteGuard<'a, T> { fn drop(&mut self) { self.l.st.set(0); } }
-pub struct Mutex<T> { v: UnsafeCell<T>, held: Cell<bool> }
+pub struct Mutex<T> { v: UnsafeCell<T>, held: Cell<bool>, q: Quiet }
 unsafe impl<T> Sync for Mutex<T> {} unsafe impl<T> Send for Mutex<T> {}
 pub struct MutexGuard<'a, T> { l: &'a Mutex<T> }
 impl<T> Mutex<T> {
-    pub fn new(t: T) -> Self { Mutex { v: UnsafeCell::new(t), held: Cell::new(false) } }
-    pub fn lock(&self) -> Result<MutexGuard<'_, T>, Poison> { crate::vclock::yield_point(); assert!(!self.held.get(), "mutex re-lock: deadlock"); self.held.set(true); Ok(MutexGuard { l: self }) }
+    pub fn new(t: T) -> Self { Mutex { v: UnsafeCell::new(t), held: Cell::new(false), q: Quiet::new() } }
+    pub fn set_quiet(&self, mode: u8) { self.q.set(mode); }
+    pub fn lock(&self) -> Result<MutexGuard<'_, T>, Poison> {
+        self.q.on_acquire(true);
+        while self.held.get() { vsym::block_on_lock(); }
+        self.held.set(true); Ok(MutexGuard { l: self })
+    }
 }
 impl<'a, T> Deref for MutexGuard<'a, T> { type Target = T; fn deref(&self) -> &T { unsafe { &*self.l.v.get() } } }
 impl<'a, T> DerefMut for MutexGuard<'a, T> { fn deref_mut(&mut self) -> &mut T { unsafe { &mut *self.l.v.get() } } }
